@@ -121,7 +121,7 @@ def run_models(tier):
 
 # how many of the emitted manifests of each configuration are run for real
 BUDGET = {"quick": dict(enable=300, persist=220, deny=260, mix=220, sched=24, pool1=3, raw=6),
-          "thorough": dict(enable=4000, persist=3500, deny=4320, mix=4000, sched=400, pool1=3, raw=40)}
+          "thorough": dict(enable=3500, persist=2800, deny=4320, mix=3500, sched=400, pool1=3, raw=40)}
 
 
 def pick_cases(emitted, tier, rng):
@@ -350,6 +350,8 @@ def selftest_traces(U):
     variant("body-lost", "RunExact", "run", lambda e: e[nrun["ran"]]["bodies"].remove("IG"))
     variant("dehydrated", "PersistExact", "run", lambda e: e[nrun["IA"]].update(pers=True))
     variant("error", "ErrorsRecorded", "run", lambda e: e[nrun["IG"]].update(errs=["crash"]))
+    variant("race", "ParallelEqualsSerial", "run", lambda e: e[nrun["PA"]].update(has=False, errs=["race"]))
+    variant("signal", "ParallelEqualsSerial", "run", lambda e: e[nrun["IA"]].update(has=False, errs=["signal"]))
     variant("body", "DisabledNeverRuns", "run", lambda e: e[nrun["ran"]]["bodies"].append("IO"))
     variant("opened", "DisabledNeverRuns", "run", lambda e: e[nrun["ran"]]["opened"].append("osrel"))
     variant("doc-extra", "PersistExact", "run", lambda e: e[nrun["finish"]]["docs"].append(dict(c="IA", n=1, err=False)))
